@@ -93,3 +93,7 @@ Proof.
   intros len c. unfold vec_iter_next. destruct (len <=? c) eqn:E; [exact I|].
   apply N.leb_gt in E. rewrite vec_index_ok by assumption. exact I.
 Qed.
+
+Corollary iterators_no_panic : forall a b,
+  (no_panic (size_iter_next a b) /\ no_panic (size_iter_next_back a b)) /\ no_panic (vec_iter_next a b).
+Proof. intros a b. split; [exact (size_iter_no_panic a b) | exact (vec_iter_no_panic a b)]. Qed.
